@@ -163,8 +163,7 @@ def expected(op, st, keyspec):
 
 def run_impl(ops, w, h, with_screen=False):
     clock = task.Clock()
-    old = vclient.reactor
-    vclient.reactor = clock
+    old = use_reactor(clock); old.__enter__()
     try:
         c, trace = connect(w=w, h=h)
         if with_screen:
@@ -203,7 +202,7 @@ def run_impl(ops, w, h, with_screen=False):
             per_op.append(writes(trace[n0:]))
         return per_op, writes(trace), None, []
     finally:
-        vclient.reactor = old
+        old.__exit__(None, None, None)
 
 
 def cli_paste_leg(ctx):
